@@ -281,3 +281,148 @@ pub fn dec_ok_buffer_20(n: i64, out: &mut Vec<u8>) {
     }
     out.extend_from_slice(&buf[pos..]);
 }
+
+// ---------------------------------------------------------------------------------------------
+// twins for the path-sensitive "only under this test" analysis (boolpath) and the rules built
+// on it; module paths mirror ferrous where a rule is anchored on them
+pub mod storage {
+    pub mod engine {
+        pub fn pattern_matches(p: &str, t: &str) -> bool { p == t || p == "*" }
+
+        fn accepts(pattern: Option<&str>, it: &str) -> bool {
+            match pattern { Some(p) => pattern_matches(p, it), None => true }
+        }
+        pub fn bp_bad_flag_never_cleared(pattern: Option<&[u8]>, items: &[String]) -> Vec<Vec<u8>> {
+            let pat = pattern.map(|p| String::from_utf8_lossy(p));
+            let mut out = Vec::new();
+            for it in items {
+                let mut include = true;
+                if let Some(ref p) = pat { if !pattern_matches(p, it) { include = true; } }
+                if include { out.push(it.as_bytes().to_vec()); }
+            }
+            out
+        }
+        pub fn bp_ok_flag(pattern: Option<&[u8]>, items: &[String]) -> Vec<Vec<u8>> {
+            let pat = pattern.map(|p| String::from_utf8_lossy(p));
+            let mut out = Vec::new();
+            for it in items {
+                let mut include = true;
+                if let Some(ref p) = pat { if !pattern_matches(p, it) { include = false; } }
+                if include { out.push(it.as_bytes().to_vec()); }
+            }
+            out
+        }
+        pub fn bp_ok_helper(pattern: Option<&[u8]>, items: &[String]) -> Vec<Vec<u8>> {
+            let pat = pattern.map(|p| String::from_utf8_lossy(p));
+            let mut out = Vec::new();
+            for it in items {
+                if accepts(pat.as_deref(), it) { out.push(it.as_bytes().to_vec()); }
+            }
+            out
+        }
+        pub fn bp_ok_map_or(pattern: Option<&[u8]>, items: &[String]) -> Vec<Vec<u8>> {
+            let pat = pattern.map(|p| String::from_utf8_lossy(p));
+            let mut out = Vec::new();
+            for it in items {
+                if pat.as_deref().map_or(true, |p| pattern_matches(p, it)) { out.push(it.as_bytes().to_vec()); }
+            }
+            out
+        }
+        pub fn bp_ok_continue(pattern: Option<&[u8]>, items: &[String]) -> Vec<Vec<u8>> {
+            let pat = pattern.map(|p| String::from_utf8_lossy(p));
+            let mut out = Vec::new();
+            for it in items {
+                if let Some(ref p) = pat { if !pattern_matches(p, it) { continue; } }
+                out.push(it.as_bytes().to_vec());
+            }
+            out
+        }
+        pub fn bp_bad_map_or_wrong_default(pattern: Option<&[u8]>, items: &[String]) -> Vec<Vec<u8>> {
+            let pat = pattern.map(|p| String::from_utf8_lossy(p));
+            let mut out = Vec::new();
+            for it in items {
+                if pat.as_deref().map_or(true, |p| p.len() > 0) { out.push(it.as_bytes().to_vec()); }
+            }
+            out
+        }
+        pub fn bp_bad_fast_path_forgets_pattern(pattern: Option<&[u8]>, items: &[String]) -> Vec<Vec<u8>> {
+            let pat = pattern.map(|p| String::from_utf8_lossy(p));
+            let mut out = Vec::new();
+            if items.len() < 4 { for it in items { out.push(it.as_bytes().to_vec()); } return out; }
+            for it in items {
+                if let Some(ref p) = pat { if !pattern_matches(p, it) { continue; } }
+                out.push(it.as_bytes().to_vec());
+            }
+            out
+        }
+    }
+
+    pub mod rdb {
+        pub struct RdbReader<R> { pub reader: R, pub pending_expiry_ms: Option<u64>, pub other_pending: Option<u64> }
+        impl<R: std::io::Read> RdbReader<R> {
+            pub fn set_pending(&mut self, v: u64, w: u64) { self.pending_expiry_ms = Some(v); self.other_pending = Some(w); }
+            pub fn carry_bad_early_return(&mut self, kind: u8, out: &mut Vec<(u8, Option<u64>)>) -> Result<(), String> {
+                let ttl = self.pending_expiry_ms;
+                if kind == 9 { out.push((kind, ttl)); return Ok(()); }
+                out.push((kind, ttl));
+                self.pending_expiry_ms = None;
+                Ok(())
+            }
+            pub fn carry_ok_reset_everywhere(&mut self, kind: u8, out: &mut Vec<(u8, Option<u64>)>) -> Result<(), String> {
+                let ttl = self.other_pending.take();
+                if kind == 9 { out.push((kind, ttl)); return Ok(()); }
+                out.push((kind, ttl));
+                Ok(())
+            }
+        }
+        pub struct RdbWriter;
+        impl RdbWriter {
+            pub fn textnum_bad(s: &str, out: &mut Vec<u8>) {
+                if let Ok(n) = s.parse::<i32>() { out.push(0xC2); out.extend_from_slice(&n.to_le_bytes()); }
+                else { out.extend_from_slice(s.as_bytes()); }
+            }
+            pub fn textnum_ok(s: &str, out: &mut Vec<u8>) {
+                if let Ok(n) = s.parse::<i32>() {
+                    if n.to_string() == s { out.push(0xC2); out.extend_from_slice(&n.to_le_bytes()); return; }
+                }
+                out.extend_from_slice(s.as_bytes());
+            }
+        }
+    }
+}
+
+pub mod protocol {
+    pub mod parser {
+        pub fn short_bad_starts_with(data: &[u8], hdr: usize, len: usize) -> Result<Option<usize>, String> {
+            let end = hdr + len;
+            if data.len() < end { return Ok(None); }
+            if !data[end..].starts_with(b"\r\n") { return Err("missing CRLF".to_string()); }
+            Ok(Some(end + 2))
+        }
+        pub fn short_ok_starts_with(data: &[u8], hdr: usize, len: usize) -> Result<Option<usize>, String> {
+            let end = hdr + len;
+            if data.len() < end + 2 { return Ok(None); }
+            if !data[end..].starts_with(b"\r\n") { return Err("missing CRLF".to_string()); }
+            Ok(Some(end + 2))
+        }
+        pub fn short_ok_negative_is_incomplete(data: &[u8], hdr: usize) -> Result<Option<usize>, String> {
+            if !data[hdr..].starts_with(b"\r\n") { return Ok(None); }
+            Ok(Some(hdr + 2))
+        }
+    }
+}
+
+pub mod so {
+    pub struct Index { pub ids: Vec<u64>, pub log: Vec<u64> }
+    impl Index {
+        pub fn find(&self, id: u64) -> bool { self.ids.binary_search(&id).is_ok() }
+        pub fn sorted_bad_push(&mut self, id: u64) { self.ids.push(id); }
+        pub fn sorted_ok_insert_at(&mut self, id: u64) { if let Err(p) = self.ids.binary_search(&id) { self.ids.insert(p, id); } }
+        pub fn sorted_ok_guarded(&mut self, id: u64, last: u64) -> bool { if id <= last { return false; } self.ids.push(id); true }
+        pub fn sorted_ok_sorts(&mut self, id: u64) { self.ids.push(id); self.ids.sort(); }
+        pub fn sorted_ok_other_field(&mut self, id: u64) { self.log.push(id); }
+    }
+    pub fn seq_bad_first_slice(d: &std::collections::VecDeque<u32>, x: u32) -> bool { d.as_slices().0.binary_search(&x).is_ok() }
+    pub fn seq_ok_both(d: &std::collections::VecDeque<u32>, x: u32) -> bool { let (a, b) = d.as_slices(); a.binary_search(&x).is_ok() || b.binary_search(&x).is_ok() }
+    pub fn seq_ok_contiguous(d: &mut std::collections::VecDeque<u32>, x: u32) -> bool { d.make_contiguous(); d.as_slices().0.binary_search(&x).is_ok() }
+}
